@@ -13,7 +13,7 @@ def summary(seed_dir, letter):
     if not os.path.exists(p):
         return ""
     txt = open(p, encoding="utf-8").read()
-    letter = {"c": "a", "d": "b", "e": "a", "f": "b"}.get(letter, letter)      # round-2 seeds c, d are the sub-agent's A, B
+    letter = {"c": "a", "d": "b", "e": "a", "f": "b", "g": "a", "h": "b"}.get(letter, letter)      # round-2 seeds c, d are the sub-agent's A, B
     pats = [r"^#+\s*(?:Change\s+)?%s\b[\s:\-–—.)]*(.+)$" % letter.upper(), r"^\*\*(?:Change\s+)?%s\b[\s:\-–—.)]*(.+?)\*\*" % letter.upper()]
     for pat in pats:
         m = re.search(pat, txt, re.M)
